@@ -447,6 +447,9 @@ func (rm *RegistrationManager) NewRegistrationC2SWrapper(c2sw *pb.C2SWrapper, in
 		} else {
 			// apply the ipv6 address from the registration response, if rr.Ipv6Addr is not empty
 			if rr.Ipv6Addr != nil {
+				if len(rr.Ipv6Addr) != net.IPv6len {
+					return nil, fmt.Errorf("invalid ipv6 phantom override: %d bytes", len(rr.Ipv6Addr))
+				}
                                 ipOverride = net.IP(rr.Ipv6Addr)
                         }
 
